@@ -17,7 +17,7 @@ pub const ENTRY: Entry = Entry {
     rule: "real SpiInterface over the virtual SPI device and DC pin, staging buffer pre-poisoned: pixel width N in {2,3} x buffer \
            length L in [N, 4N+1] + {16, 31, 64} x every history of <= 2 calls (<= 3 for L <= 2N+1) over the alphabet \
            {send_command(c, |args| in 0..=18), send_pixels(k pixels, k in 0..=3*cap+2), send_repeated_pixel(p, count in 0..=3*cap+2) for two \
-           pixel values}, consecutive calls using disjoint byte alphabets so stale buffer content is visible. Every history is \
+           pixel values}, consecutive calls using disjoint byte alphabets so stale buffer content is visible; plus all pairs of pixel calls over ONE alphabet and all fill / stream-starting-with-the-fill-colour / fill triples (equal bytes in different calls, for cached-buffer mistakes). Every history is \
            prefixed by a RAMWR command. Oracle: concatenated written bytes == instruction, parameters, pixel bytes in order; DC low \
            for exactly the instruction byte; transactions within the termination budget; Ok. Non-trivial = histories with >= 2 calls.",
     assumptions: &["a failed or zero-length SPI write delivers nothing", "the buffer is the transport's only state, so depth 2-3 with adversarial previous content covers any history"],
@@ -174,6 +174,38 @@ fn run(ctx: &Ctx) -> Part {
                     });
                 }
             };
+            // histories whose calls share byte values (a stream starting with the fill colour, the same
+            // fill twice with different counts, ...): pixel calls of one alphabet, depth 2 and
+            // (x, y, x') depth 3 - cached-buffer mistakes need equal bytes in different calls
+            let pix0: Vec<&TCall> = a0.iter().filter(|c| !matches!(c, TCall::Cmd { .. })).collect();
+            let mixed: Vec<TCall> = {
+                // streams that start with one of the two repeat pixels and continue with other bytes
+                let mut v = Vec::new();
+                for pix in 0..2usize {
+                    let pixel: Vec<u16> = (0..n).map(|i| byte_of(0, 50 + pix * 5 + i * (1 - pix)) as u16).collect();
+                    for k in [1usize, 2, l / n, l / n + 1] {
+                        let mut words = pixel.clone();
+                        words.extend((0..(k.max(1) - 1) * n).map(|i| byte_of(0, 20 + i) as u16));
+                        v.push(TCall::Pixels { n: n as u8, words });
+                    }
+                }
+                v
+            };
+            for a in pix0.iter() {
+                for b in pix0.iter().chain(mixed.iter().collect::<Vec<_>>().iter()) {
+                    check(&mut acc, &[(*a).clone(), (*b).clone()]);
+                    acc.count("same_alphabet_pairs", 1);
+                }
+            }
+            let reps: Vec<&TCall> = a0.iter().filter(|c| matches!(c, TCall::Repeat { .. })).collect();
+            for a in reps.iter() {
+                for b in mixed.iter() {
+                    for c in reps.iter() {
+                        check(&mut acc, &[(*a).clone(), b.clone(), (*c).clone()]);
+                        acc.count("fill_stream_fill_triples", 1);
+                    }
+                }
+            }
             for a in &a0 {
                 check(&mut acc, std::slice::from_ref(a));
                 for b in &a1 {
@@ -193,7 +225,9 @@ fn run(ctx: &Ctx) -> Part {
         })
         .reduce(Acc::new, Acc::merge);
     let bounds = json!({"pixel_widths": [2, 3], "buffer_lengths": jobs.iter().map(|j| j.1).collect::<Vec<_>>(), "depth": "2 (3 for short buffers)", "poison": "0xEE"});
-    Part::new(ctx, acc, bounds, true, t0.elapsed().as_secs_f64())
+    let mut part = Part::new(ctx, acc, bounds, true, t0.elapsed().as_secs_f64());
+    part.require("fill_stream_fill_triples", 100);
+    part
 }
 
 pub fn replay(case: &serde_json::Value) -> i32 {
